@@ -1385,7 +1385,7 @@ fn parse_singular_expression(tokens: &mut Tokens) -> Result<Expression, Error>
 
 	if let Some(location_of_keyword) = location_of_bitcast
 	{
-		location = location.combined_with(&location_of_keyword);
+		location = location_of_keyword.clone().combined_with(&location);
 		expression = Expression::BitCast {
 			expression: Box::new(expression),
 			coerced_type: None,
